@@ -926,3 +926,42 @@ SCENARIOS += [
     Scenario("C09.folding.shape[any rank]", s_anyrank_shape, [(REL, "shape"), (REL, "_get_int_attribute")],
              trusted=_TRA, assumptions=_ASA, max_paths=20000, budget_s=900),
 ]
+
+
+def s_anyrank_merge_shapes(ctx):
+    """_merge_shapes (backward shape inference on Identity) for shapes of ANY rank: two sound annotations of the same run-time shape merge
+    into a sound annotation of it — same rank, and every merged dim denotes the run-time extent under every binding (a static int wins
+    over a symbol, a named symbol over an unknown one)."""
+    from .symshape import describe, denotes
+    ir, SymShape, I, W, state, i0 = _anyrank(ctx)
+    A = SymShape(I, "preferred")
+    B = SymShape(I, "other")
+    ctx.assume(A.rank == B.rank)                    # both annotate the same tensor
+    p = A.rank - 1 - i0
+    A.facts(p)
+    B.facts(p)
+    ctx.assume(z3.Implies(i0 < A.rank, A.rt(p) == B.rt(p)))
+    try:
+        r = I.call(_cf()._merge_shapes, [A.obj, B.obj])
+    except PyRaise:
+        ctx.check("C04.folding.merge_shapes.any_rank.never_raises_for_two_annotations_of_one_tensor", False, CL04)
+        return
+    ok = isinstance(r, SObj)
+    ctx.check("C09.folding.merge_shapes.any_rank.returns_a_shape", ok, CLR)
+    if not ok:
+        return
+    dims = r.fields["_dims"]
+    from pyvc.values import SSeq
+    dl = dims.len if isinstance(dims, SSeq) else z3.IntVal(len(dims))
+    ctx.check("C09.folding.merge_shapes.any_rank.merged_shape_has_the_rank_of_the_tensor", dl == A.rank, CLR)
+    if not ctx.branch(i0 < A.rank):
+        return
+    d = dims.at(i0)
+    ctx.cover("merge_shapes.any_rank.dim")
+    ctx.check("C09.folding.merge_shapes.any_rank.merged_dim_denotes_the_runtime_extent_for_every_binding", denotes(describe(d), A.rt(p)), CLR)
+    k, _iv, _nm = describe(d)
+    ctx.check("C09.folding.merge_shapes.any_rank.nothing_known_is_lost", z3.Implies(z3.Or(A.kind(p) != 2, B.kind(p) != 2), k != 2), CLR)
+
+
+SCENARIOS.append(Scenario("C09.folding.merge_shapes[any rank]", s_anyrank_merge_shapes, [(REL, "_merge_shapes"), (REL, "_merge_shapes.merge_dims")],
+                          trusted=_TRA, assumptions=_ASA))
